@@ -557,11 +557,17 @@ class DocutilsRenderer(RendererProtocol):
                     )
 
     def render_hr(self, token: SyntaxTreeNode) -> None:
+        # footnotes are moved to the end of the document (when footnote_sort is set),
+        # before the transition is checked, so they do not count as preceding elements
+        ignored = (
+            (nodes.title, nodes.subtitle, nodes.footnote)
+            if self.md_config.footnote_sort
+            else (nodes.title, nodes.subtitle)
+        )
         if not isinstance(
             self.current_node, nodes.document | nodes.section
         ) and not any(
-            not isinstance(child, nodes.title | nodes.subtitle)
-            for child in self.current_node.children
+            not isinstance(child, ignored) for child in self.current_node.children
         ):
             # docutils only allows a transition to be the first element of a
             # document or section (where it reports an error),
